@@ -166,6 +166,31 @@ def grid(r: Any) -> list[S.Scenario]:
                     k["priv_has_point"] = not profile
                 sc.meta["grid"] = f"{alg}/{hh}/{profile}"
                 out.append(sc)
+    # the two halves of an EC key pair in DIFFERENT slots of one module (public objects kept in one slot, private ones in another), the
+    # private object without CKA_EC_POINT: the public key comes from a second lookup, which ends in another session than the private
+    # handle's — C_Sign has to go to the PRIVATE object's session
+    for alg in (13, 14):
+        for order in ("private-slot-first", "public-slot-first"):
+            for hh in (False, True):
+                sc = S.gen_scenario(r, n_bundles=2, force_alg=alg)
+                for k in sc.ksks.values():
+                    k["entry"]["hash_using_hsm"] = hh
+                    k["priv_has_point"] = False
+                    k["public"] = False  # the private half only at the key's own place …
+                    mod = next(m_ for m_ in sc.modules if m_["path"] == k["module"])
+                    ids = [s_["id"] for s_ in mod["slots"]]
+                    other = max(ids) + 1 if order == "private-slot-first" else min(ids) - 1
+                    if other < 0:  # no room before the first slot: renumber is not possible, use the place after and swap roles below
+                        other = max(ids) + 1
+                    if other not in ids:
+                        mod["slots"].append({"id": other}) if other > max(ids) else mod["slots"].insert(0, {"id": other})
+
+                    def edit(w: Any, k: dict[str, Any] = k, other: int = other) -> None:  # … and the public half in the other slot
+                        w.modules[k["module"]].slot(other).add_ec(k["label"], k["tk"], public=True, private=False, wrapped_point=k.get("wrapped", True))
+
+                    sc.token_edits.append(edit)
+                sc.meta["grid"] = f"{alg}/{hh}/split:{order}"
+                out.append(sc)
     return out
 
 
